@@ -5,16 +5,16 @@
    `guarded` excludes exactly: a failing walk call when the wrapper does not clean up, and a
    modification that changes the composition of something reachable from a frozen object. *)
 From Coq Require Import ZArith List String Bool Arith.
-From PAFC13 Require Import Model Proofs1 Proofs2 Proofs3 Witness.
+From PAFC13 Require Import Model Proofs1 Proofs2 Proofs3 Proofs4 Witness.
 Import ListNotations.
 Open Scope list_scope.
 
 (* PARTIAL (guard): in every guarded history every query -- prior_count, paths, ordered prior
    ids, instance for a vector, info -- answers exactly what the uncached query answers on the
    current composition, whatever was frozen, cached, queried, copied or rejected before *)
-Theorem C13_coherent_partial : forall cfg pre o q, guarded cfg pre init ->
-  snd (run cfg (pre ++ [OQuery o q]) init) =
-  snd (run cfg pre init) ++ [snd (run_query cfg o q (fresh (fst (run cfg pre init))))].
+Theorem C13_coherent_partial : forall cfg pre o q, guarded cfg pre (init cfg) ->
+  snd (run cfg (pre ++ [OQuery o q]) (init cfg)) =
+  snd (run cfg pre (init cfg)) ++ [snd (run_query cfg o q (fresh (fst (run cfg pre (init cfg)))))].
 Proof. exact coherent_histories. Qed.
 
 (* the invariant form: every cache entry of a frozen object equals the pure function, hence a
@@ -30,9 +30,9 @@ Proof. exact guarded_ok. Qed.
 
 (* no history effects: two guarded histories ending in the same composition agree on every query *)
 Theorem C13_history_independent : forall cfg pre1 pre2 o q,
-  guarded cfg pre1 init -> guarded cfg pre2 init ->
-  fresh (fst (run cfg pre1 init)) = fresh (fst (run cfg pre2 init)) ->
-  snd (run_query cfg o q (fst (run cfg pre1 init))) = snd (run_query cfg o q (fst (run cfg pre2 init))).
+  guarded cfg pre1 (init cfg) -> guarded cfg pre2 (init cfg) ->
+  fresh (fst (run cfg pre1 (init cfg))) = fresh (fst (run cfg pre2 (init cfg))) ->
+  snd (run_query cfg o q (fst (run cfg pre1 (init cfg)))) = snd (run_query cfg o q (fst (run cfg pre2 (init cfg)))).
 Proof. exact history_independent. Qed.
 
 (* the guard is decidable on concrete histories (used on every generated history) *)
@@ -75,20 +75,95 @@ Theorem C13_copy_keeps_originals : forall cfg st o t ob, get st t = Some ob ->
   get (fst (step cfg (OCopy o) st)) t = Some ob.
 Proof. exact copy_keeps_originals. Qed.
 
-(* REFUTED on the pinned code: the full statement (no guard) fails after a failing walk call ... *)
-Theorem C13_coherent_refuted_failing_call :
-  wrapper_cleanup = false -> ~ coherent_everywhere (mkConfig cls0 pri0 wrapper_cleanup).
-Proof. exact refuted_failing_call. Qed.
+(* REFUTED for the wrapper without try/finally (the code before 5afd9f1; Model.wrapper_cleanup = false):
+   the full statement (no guard) fails after a failing walk call *)
+Theorem C13_coherent_refuted_unrepaired_wrapper : ~ coherent_everywhere cfg_pinned.
+Proof. exact refuted_failing_call_unrepaired. Qed.
 
 (* ... and, independently of the wrapper, after a modification below a still-frozen ancestor *)
 Theorem C13_coherent_refuted_stale_ancestor : ~ coherent_everywhere cfg_repaired.
 Proof. exact refuted_stale_ancestor. Qed.
 
 (* for the repaired wrapper (try/finally) failing calls are inside the guard *)
-Theorem C13_repaired_allows_failing_calls : forall cl pr st o, guard (mkConfig cl pr true) st (OFailWalk o).
+Theorem C13_repaired_allows_failing_calls : forall cl pr d i st o, guard (mkConfig cl pr true d i) st (OFailWalk o).
 Proof. exact repaired_allows_failing_calls. Qed.
+
+(* FULL (given a successful freeze, i.e. enough fuel / a finite acyclic depth): freeze reaches every
+   Model / Collection below, so all of them reject assignment afterwards *)
+Theorem C13_freeze_reaches_descendants : forall n o st, Inv st -> snd (freeze n o st) = Ok tt ->
+  forall t, PMReach st o t -> frozen_at (fst (freeze n o st)) t.
+Proof. exact freeze_reaches_all. Qed.
+
+Theorem C13_frozen_rejects_at_depth : forall cfg st o t name v, Inv st ->
+  snd (freeze FUEL o st) = Ok tt -> PMReach st o t ->
+  (exists tb, get st t = Some tb /\ okind tb <> KTuple) ->
+  let st' := fst (step cfg (OFreeze o) st) in
+  step cfg (OSet t name v) st' = (st', Exn EAssertion).
+Proof. exact frozen_rejects_at_depth. Qed.
+
+Theorem C13_frozen_rejects_setitem : forall cfg st o ob key v,
+  get st o = Some ob -> okind ob = KColl -> ofrozen ob = true ->
+  step cfg (OSetItem o key v) st = (st, Exn EAssertion).
+Proof. exact frozen_rejects_setitem. Qed.
+
+(* REFUTED: ... but not the members of a TuplePrior below a frozen model *)
+Theorem C13_freeze_protects_all_refuted : ~ freeze_protects_all cfg_repaired.
+Proof. exact tuple_unprotected. Qed.
+
+(* FULL: effects of accepted modifications on a Model, of append and of delattr (which no flag stops) *)
+Theorem C13_setattr_model_effect : forall cfg st o ob cls name v,
+  get st o = Some ob -> okind ob = KModel cls -> ofrozen ob = false -> frozen_pm st v = false -> has_us name = false ->
+  let st' := fst (step cfg (OSet o name v) st) in
+  comp_at st' o = Some (KModel cls, set_attr name v (oattrs ob), onitems ob) /\
+  (forall t, t <> o -> comp_at st' t = comp_at st t) /\
+  snd (step cfg (OSet o name v) st) = Ok AUnit.
+Proof. exact setattr_model_effect. Qed.
+
+Theorem C13_setattr_model_frozen_value : forall cfg st o ob cls name v,
+  get st o = Some ob -> okind ob = KModel cls -> ofrozen ob = false -> frozen_pm st v = true ->
+  step cfg (OSet o name v) st = (st, Exn EAssertion).
+Proof. exact setattr_model_frozen_value. Qed.
+
+Theorem C13_append_effect : forall cfg st o ob v,
+  get st o = Some ob -> okind ob = KColl -> ofrozen ob = false ->
+  let st' := fst (step cfg (OAppend o v) st) in
+  comp_at st' o = Some (KColl, set_attr (string_of_nat (onitems ob)) v (oattrs ob), S (onitems ob)) /\
+  (forall t, t <> o -> comp_at st' t = comp_at st t) /\
+  snd (step cfg (OAppend o v) st) = Ok AUnit.
+Proof. exact append_effect. Qed.
+
+Theorem C13_delattr_effect : forall cfg st o ob name w,
+  get st o = Some ob -> sassoc name (oattrs ob) = Some w ->
+  let st' := fst (step cfg (ODel o name) st) in
+  comp_at st' o = Some (okind ob, del_attr name (oattrs ob), onitems ob) /\
+  (forall t, t <> o -> comp_at st' t = comp_at st t) /\
+  snd (step cfg (ODel o name) st) = Ok AUnit.
+Proof. exact delattr_effect. Qed.
+
+(* FULL: setattr on a collection is invisible to every object that does not contain it ... *)
+Theorem C13_setattr_is_local : forall cfg st c ob name v o k,
+  get st c = Some ob -> okind ob = KColl -> ofrozen ob = false -> ~ Reach st o c ->
+  pure_key (fst (step cfg (OSet c name v) st)) o k = pure_key st o k.
+Proof. exact setattr_is_local. Qed.
+
+(* REFUTED: ... item assignment is not: Collection.__setitem__ writes the id of the replaced value into the
+   assigned prior, which other models hold (ordered ids of an untouched collection change, two priors can merge) *)
+Theorem C13_setitem_is_local_refuted : ~ setitem_is_local cfg_repaired.
+Proof. exact setitem_leaks. Qed.
+
+(* prior passing (mapper_from_prior_arguments & co.): PARTIAL -- it keeps composition and invariant ... *)
+Theorem C13_derive_keeps_composition : forall cfg st o, Inv st ->
+  Inv (fst (step cfg (ODerive o) st)) /\ fresh (fst (step cfg (ODerive o) st)) = fresh st.
+Proof. exact derive_keeps_composition. Qed.
+
+(* REFUTED: ... but not the frozen flags: a Model below a frozen collection comes back thawed *)
+Theorem C13_derive_keeps_flags_refuted : ~ derive_keeps_flags cfg_repaired.
+Proof. exact derive_thaws_flags. Qed.
 
 Print Assumptions C13_coherent_partial.
 Print Assumptions C13_history_independent.
-Print Assumptions C13_coherent_refuted_failing_call.
+Print Assumptions C13_coherent_refuted_unrepaired_wrapper.
 Print Assumptions C13_coherent_refuted_stale_ancestor.
+Print Assumptions C13_freeze_reaches_descendants.
+Print Assumptions C13_setitem_is_local_refuted.
+Print Assumptions C13_derive_keeps_flags_refuted.
